@@ -229,8 +229,7 @@ def c17_3(ctx):
     ctx.floor(R, "TreeCache holders", len(holders), 5)
 
 
-def c17_4(ctx):
-    R = "C17.4"
+def c17_4(ctx, R="C17.4"):
     b = U.body(ctx, R, "clvm_utils::curry_tree_hash::curry_tree_hash")
     if b:
         roles = {}
